@@ -1626,8 +1626,14 @@ impl Kanata {
                                 self.caps_word = Some(CapsWordState::new(cfg));
                             }
                             CapsWordRepressBehaviour::Toggle => {
-                                self.caps_word = match self.caps_word {
-                                    Some(_) => None,
+                                self.caps_word = match self.caps_word.take() {
+                                    // End through the normal path on the next tick, so that
+                                    // the shift it may have added is released by that tick
+                                    // (is_idle() is false until then).
+                                    Some(mut cw) => {
+                                        cw.timeout_ticks = 0;
+                                        Some(cw)
+                                    }
                                     None => Some(CapsWordState::new(cfg)),
                                 };
                             }
